@@ -49,26 +49,29 @@ theorem normalize_post (hne : f.key ≠ tgt) (h : (normalizeRent env f tgt s).1 
         refine ⟨rfl, rfl, fun _ => ?_, fun h0 => by omega⟩
         simp only []; omega
 
-/-- `refund_post`: on success the data is untouched, the account keeps `min lamports₀ rentMin`
-(so an account at or above the minimum ends exactly at the minimum — at least the minimum, only the
-excess moved), and the recipient gains exactly what the account lost. -/
+/-- `refund_post` (full strength, after the repair 519a31c): on success the data is untouched; the
+account is left with AT LEAST the rent-exempt minimum, or it had zero lamports and is left alone
+(state unchanged); precisely, it keeps `min lamports₀ rentMin`; the recipient gains exactly what the
+account lost — the excess over the minimum, and nothing when there is none. -/
 theorem refund_post (r : Key) (hne : r ≠ tgt) (h : (refundRent env r tgt s).1 = .ok ()) :
     ((refundRent env r tgt s).2.w tgt).data = (s.w tgt).data ∧
+    (((refundRent env r tgt s).2.w tgt).lamports ≥ env.rentMin (s.w tgt).data.length ∨
+      ((s.w tgt).lamports = 0 ∧ (refundRent env r tgt s).2 = s)) ∧
     ((refundRent env r tgt s).2.w tgt).lamports = min (s.w tgt).lamports (env.rentMin (s.w tgt).data.length) ∧
     ((refundRent env r tgt s).2.w r).lamports
-      = (s.w r).lamports + ((s.w tgt).lamports - ((refundRent env r tgt s).2.w tgt).lamports) ∧
-    ((s.w tgt).lamports ≥ env.rentMin (s.w tgt).data.length →
-      ((refundRent env r tgt s).2.w tgt).lamports ≥ env.rentMin (s.w tgt).data.length) := by
+      = (s.w r).lamports + ((s.w tgt).lamports - env.rentMin (s.w tgt).data.length) := by
   have hne' : tgt ≠ r := fun e => hne e.symm
   unfold refundRent at h ⊢
   simp only [] at h ⊢
   by_cases h1 : env.rentMin (s.w tgt).data.length = (s.w tgt).lamports
-  · rw [if_pos h1]; exact ⟨rfl, by simp only []; omega, by simp, fun _ => by simp only []; omega⟩
+  · rw [if_pos h1]
+    exact ⟨rfl, Or.inl (by simp only []; omega), by simp only []; omega, by simp only []; omega⟩
   · rw [if_neg h1] at h ⊢
     by_cases h2 : env.rentMin (s.w tgt).data.length > (s.w tgt).lamports
     · rw [if_pos h2] at h ⊢
-      by_cases h3 : (s.w tgt).lamports > 0
-      · rw [if_pos h3]; exact ⟨rfl, by simp only []; omega, by simp, fun _ => by simp only []; omega⟩
+      by_cases h3 : (s.w tgt).lamports = 0
+      · rw [if_pos h3]
+        exact ⟨rfl, Or.inr ⟨h3, rfl⟩, by simp only []; omega, by simp only []; omega⟩
       · rw [if_neg h3] at h; cases h
     · rw [if_neg h2] at h ⊢
       unfold addLamports at h ⊢
@@ -79,7 +82,7 @@ theorem refund_post (r : Key) (hne : r ≠ tgt) (h : (refundRent env r tgt s).1 
         rw [if_neg hov]
         simp only []
         rw [setLamports_other _ _ hne', setLamports_same, setLamports_same, setLamports_other _ _ hne]
-        refine ⟨rfl, ?_, ?_, fun _ => ?_⟩ <;> simp only [] <;> omega
+        refine ⟨rfl, Or.inl ?_, ?_, ?_⟩ <;> simp only [] <;> omega
 
 /-- `receive_post`: on success the data is untouched; an account with zero lamports is left alone;
 otherwise the account ends with `max lamports₀ rentMin` — only ever the shortfall is added — and
@@ -362,22 +365,24 @@ theorem cache_last_set_wins (c : Cache) (l : List Funder) (b : Funder) (W : Nat)
   · intro ho
     rcases ho with e | e <;> subst e <;> simp only [Cache.who, h2, cleanupZc]
 
-/-- `refund_below_min_witness` (D13): the literal reading "refunding leaves at least the minimum"
-is FALSE of the code — an account holding `0 < lamports < rentMin` is answered `Ok` and left exactly
-where it was, below the minimum. (With zero lamports the answer is `InsufficientFunds`.) -/
-theorem refund_below_min_witness (r : Key) (hpos : 0 < (s.w tgt).lamports)
-    (hlt : (s.w tgt).lamports < env.rentMin (s.w tgt).data.length) :
+/-- `refund_zero_left_alone`: refunding an account with zero lamports (e.g. closed earlier in the
+same instruction) is `Ok` and changes nothing — whatever the rent minimum. -/
+theorem refund_zero_left_alone (r : Key) (h0 : (s.w tgt).lamports = 0) :
     refundRent env r tgt s = (.ok (), s) := by
   unfold refundRent
   simp only []
-  rw [if_neg (by omega), if_pos hlt, if_pos hpos]
+  by_cases h1 : env.rentMin (s.w tgt).data.length = (s.w tgt).lamports
+  · rw [if_pos h1]
+  · rw [if_neg h1, if_pos (by omega), if_pos h0]
 
-theorem refund_zero_errs (r : Key) (h0 : (s.w tgt).lamports = 0)
-    (hlt : 0 < env.rentMin (s.w tgt).data.length) :
+/-- `refund_below_min_errs`: an account holding `0 < lamports < rentMin` cannot be refunded from:
+`InsufficientFunds`, nothing changes (D13 — formerly answered `Ok` — repaired by 519a31c). -/
+theorem refund_below_min_errs (r : Key) (hpos : 0 < (s.w tgt).lamports)
+    (hlt : (s.w tgt).lamports < env.rentMin (s.w tgt).data.length) :
     refundRent env r tgt s = (.err .insufficientFunds, s) := by
   unfold refundRent
   simp only []
-  rw [if_neg (by omega), if_pos (by omega), if_neg (by omega)]
+  rw [if_neg (by omega), if_pos hlt, if_neg (by omega)]
 
 /-! ## Non-vacuity -/
 
@@ -399,9 +404,13 @@ example : (normalizeRent exEnv exF [2] { w := exW 15, log := [] }).2.log =
 /-- above the minimum: the excess goes to the funder by direct writes, no CPI -/
 example : ((normalizeRent exEnv exF [2] { w := exW 90, log := [] }).2.w [1]).lamports = 1050 := by decide
 example : (normalizeRent exEnv exF [2] { w := exW 90, log := [] }).2.log = [] := by decide
-/-- D13 on a concrete world: `Ok`, 15 < 40 lamports left -/
-example : (refundRent exEnv [1] [2] { w := exW 15, log := [] }).1 = .ok () ∧
+/-- refund below the minimum (15 < 40): `InsufficientFunds`, balance untouched; zero lamports: `Ok` -/
+example : (refundRent exEnv [1] [2] { w := exW 15, log := [] }).1 = .err .insufficientFunds ∧
     ((refundRent exEnv [1] [2] { w := exW 15, log := [] }).2.w [2]).lamports = 15 := by decide
+example : (refundRent exEnv [1] [2] { w := exW 0, log := [] }).1 = .ok () := by decide
+/-- refund above the minimum: exactly the excess (50) moves to the recipient -/
+example : ((refundRent exEnv [1] [2] { w := exW 90, log := [] }).2.w [2]).lamports = 40 ∧
+    ((refundRent exEnv [1] [2] { w := exW 90, log := [] }).2.w [1]).lamports = 1050 := by decide
 /-- close: everything to the recipient, 2 marker bytes left -/
 example : ((closeAccount 2 [1] [2] { w := exW 90, log := [] }).2.w [2]) =
     { lamports := 0, owner := [7], data := [255, 255] } := by decide
